@@ -13,7 +13,7 @@ Core Lean only.
 import Model.Legacy.Collection
 
 namespace Spec.Legacy
-open Legacy F64
+open _root_.Legacy _root_.F64
 
 /-! ## Part A — specification-level definitions -/
 
